@@ -125,6 +125,17 @@ def run(shard: dict, ctx) -> None:
         ctx.sample({"kind": "residue", "a": 0, "b": 0, "is_good_expected": True})
     else:
         rng = ctx.rng("random", shard["part"])
+        if shard["part"] == 0:
+            # windows whose length is a power of two, a multiple of 1 MiB / 64 KiB, or next to one (block-wise implementations)
+            big = rng.randbytes((1 << 21) + 5)
+            for length in (65536, 65535, 65537, 1 << 20, (1 << 20) - 1, (1 << 20) + 1, 1 << 21, 4096, 8192):
+                start = rng.choice((0, 1, 3))
+                got = F.compute_checksum(big, start, length)
+                want = fcs16.fcs_fast(big[start : start + length])
+                ctx.count("big_windows_compared")
+                ctx.case(f"big{length}", True)
+                if got != want:
+                    ctx.violation("C03:compute_checksum:big-window", f"compute_checksum(window of {length} octets at {start}) = {got!r}, model {want:#06x}", {"kind": "big", "length": length, "start": start})
         for i in range(shard["n"]):
             n = rng.choice((0, 1, 2, 3, rng.randint(0, 40), rng.randint(0, 300)))
             data = rng.randbytes(n)
@@ -233,6 +244,13 @@ def replay(case: dict, ctx) -> None:
         run({"kind": "residue", "first_octets": [case["a"]]}, ctx)
     elif k == "table":
         run({"kind": "residue", "first_octets": []}, ctx)
+    elif k == "big":
+        import random
+
+        big = random.Random(1).randbytes((1 << 21) + 5)
+        got = F.compute_checksum(big, case["start"], case["length"])
+        if got != fcs16.fcs_fast(big[case["start"] : case["start"] + case["length"]]):
+            ctx.violation("C03:compute_checksum:big-window", f"window of {case['length']} octets", case)
     else:
         import random
 
